@@ -55,6 +55,9 @@ impl Ctx {
                     .env("DEXSIM_CLOCK_STEP_NS", w.step_ns.to_string());
             }
         }
+        if let Some(h) = plan.host {
+            crate::plan::apply_host_mask(&mut cmd, h);
+        }
         cmd.current_dir(&self.tmp)
             .stdout(std::process::Stdio::null())
             .stderr(std::process::Stdio::null());
@@ -275,6 +278,7 @@ pub fn minimise(ctx: &mut Ctx, plan: &Plan, class: &str, step: usize, earlier: O
         reqs: plan.reqs.clone(),
         steps: plan.steps[..=step].to_vec(),
         clock: plan.clock.clone(),
+        host: plan.host,
     };
     cur.compact();
     let timeout = if class == "hang" { 40 } else { 30 };
